@@ -45,8 +45,42 @@ def sections(st):
             s[k] = v
     return s
 
+def app_norm(st, merge, swept, is_app):
+    """keeper mode against app mode.  The SDK's distribution begin-blocker sweeps the fee collector into the distribution module
+    account at the start of every block: what the fee collector held at the end of the previous block ([swept], taken from the
+    keeper-mode stream) is moved on the keeper side before comparing, so both accounts are compared exactly.  The SDK mint
+    begin-blocker recomputes the minter's current inflation every block: that field is dropped."""
+    st = dict(st)
+    if "mint" in st:
+        st["mint"] = st["mint"][:3]
+    if merge and "bal" in st and not is_app and swept:
+        bal = {a: dict(m) for a, m in st["bal"].items()}
+        fee, dis = merge
+        for d, v in swept.items():
+            f = int(bal.get(fee, {}).get(d, "0")) - v
+            g = int(bal.get(dis, {}).get(d, "0")) + v
+            for acc, val in ((fee, f), (dis, g)):
+                m = bal.setdefault(acc, {})
+                if val == 0:
+                    m.pop(d, None)
+                else:
+                    m[d] = str(val)
+                if not m:
+                    bal.pop(acc, None)
+        st["bal"] = bal
+    return st
+
+
 def main():
     impl_path, model_path = sys.argv[1], sys.argv[2]
+    app = "--app" in sys.argv
+    merge = []
+    if app and "--ops" in sys.argv:
+        for line in open(sys.argv[sys.argv.index("--ops") + 1]):
+            t = line.split()
+            if len(t) > 4 and t[0] == "G" and t[1] == "cfg":
+                merge = [t[3], t[4]]
+                break
     maxm = 50
     if "--max" in sys.argv:
         maxm = int(sys.argv[sys.argv.index("--max") + 1])
@@ -55,6 +89,7 @@ def main():
     nops = 0
     hists = set()
     diverged = set()   # histories already diverged: later differences are consequences
+    swept_by_h = {}
     with open(impl_path) as fi, open(model_path) as fm:
         for li, lm in zip(fi, fm):
             a, b = json.loads(li), json.loads(lm)
@@ -77,6 +112,13 @@ def main():
             if a["res"] == "rej" and a.get("same") is False:
                 rec("rejected_changed_state", False, True)
             if "st" in a and "st" in b:
+                if app:
+                    if a["op"] == "G":
+                        swept_by_h[a["h"]] = {}
+                    raw_fee = {d: int(v) for d, v in (a["st"].get("bal", {}).get(merge[0], {}) if merge else {}).items()}
+                    a["st"], b["st"] = app_norm(a["st"], merge, swept_by_h.get(a["h"], {}), False), app_norm(b["st"], merge, None, True)
+                    if a["op"] in ("E", "G"):
+                        swept_by_h[a["h"]] = raw_fee   # the next begin-blocker sweeps this
                 sa, sb = sections(norm_state(a["st"])), sections(norm_state(b["st"]))
                 for k in sorted(set(sa) | set(sb)):
                     if canon(sa.get(k)) != canon(sb.get(k)):
